@@ -255,6 +255,9 @@ pub struct BatchResult {
     pub runs_unsummarised: u64,
     /// deaths that did not recur when the lane was re-run run by run (not failures: a failure must replay)
     pub transient_deaths: Vec<String>,
+    /// number of lanes (worker processes) of the batch: run i was executed by lane i % lanes, after the runs
+    /// i % lanes, i % lanes + lanes, ... of the same process
+    pub lanes: u64,
 }
 
 struct Slot {
@@ -536,6 +539,7 @@ pub fn run_batch(b: &Batch, prop: &str, tier: Tier, seed: u64, hashes: bool) -> 
     r.deaths.sort();
     r.samples.truncate(3);
     r.wall_s = t0.elapsed().as_secs_f64();
+    r.lanes = nworkers;
     r
 }
 
@@ -561,6 +565,17 @@ pub struct Replay {
     /// keys of the library's hash maps when the run started (hashseam.rs), decimal; replay starts a thread with them
     #[serde(default)]
     pub hash_keys: Option<(u64, u64)>,
+    /// the failure depends on state that earlier runs left in the process (a thread-local or global memo in the
+    /// library): replay re-executes, on one thread armed like the worker's, the runs start, start+step, ... up to
+    /// `run`, generated from the seed, and looks at the last one
+    #[serde(default)]
+    pub history: Option<History>,
+}
+
+#[derive(Serialize, Deserialize, Clone)]
+pub struct History {
+    pub start: u64,
+    pub step: u64,
 }
 
 /// Hash keys a replay of `r` starts with: the recorded ones, or (files written before the seam existed) keys
@@ -575,11 +590,54 @@ fn keys_of(r: &Replay) -> (u64, u64) {
 pub fn replay_in_process<W: World>(r: &Replay) -> Result<Option<Failure>, String> {
     let known = load_known();
     let open = open_set(&known);
+    if let Some(h) = &r.history {
+        return replay_history::<W>(r, h, &open);
+    }
     let case: W::Case = serde_json::from_value(r.case.clone()).map_err(|e| format!("bad case in replay file: {e}"))?;
     // same hash order as the run that failed
     crate::hashseam::selfcheck()?;
     crate::hashseam::set_replay_keys(Some(keys_of(r)));
     let ctx = run_case::<W>(&case, &r.property, &r.mode, Tier::parse(&r.tier), std::env::var("VERIF_TRACE").is_ok(), &open)?;
+    if let Some(lines) = &ctx.log_lines {
+        for l in lines {
+            eprintln!("  | {l}");
+        }
+    }
+    let class = clause_class(&r.clause);
+    Ok(ctx.failures.into_iter().find(|f| f.prop == r.property && f.class() == class))
+}
+
+/// Replay of a failure that needs the runs before it: the lane's loop of `worker_lane`, same thread, same keys.
+fn replay_history<W: World>(r: &Replay, h: &History, open: &Arc<BTreeSet<String>>) -> Result<Option<Failure>, String> {
+    let stream = format!("{}/{}", W::NAME, r.mode);
+    let tier = Tier::parse(&r.tier);
+    let trace = std::env::var("VERIF_TRACE").is_ok();
+    crate::hashseam::set_replay_keys(None);
+    crate::hashseam::arm(crate::hashseam::lane_seed(r.seed, &stream, h.start));
+    let step = h.step.max(1);
+    let last: Result<Option<Ctx>, String> = std::thread::scope(|s| {
+        std::thread::Builder::new()
+            .stack_size(crate::hashseam::RUN_STACK)
+            .spawn_scoped(s, || {
+                let mut i = h.start;
+                let mut last = None;
+                while i <= r.run {
+                    let mut rng = Rng::new(r.seed, &stream, i);
+                    let case = W::generate(&mut rng, &r.property, &r.mode, tier);
+                    let _ = crate::hashseam::current_keys();
+                    let ctx = run_case::<W>(&case, &r.property, &r.mode, tier, trace && i == r.run, open)?;
+                    if i == r.run {
+                        last = Some(ctx);
+                    }
+                    i += step;
+                }
+                Ok(last)
+            })
+            .map_err(|e| format!("cannot start the replay thread: {e}"))?
+            .join()
+            .unwrap_or_else(|_| Err("the replay thread panicked outside a library call".to_string()))
+    });
+    let Some(ctx) = last? else { return Ok(None) };
     if let Some(lines) = &ctx.log_lines {
         for l in lines {
             eprintln!("  | {l}");
@@ -728,6 +786,7 @@ pub fn triage<W: World>(
                 case: serde_json::to_value(&case).unwrap(),
                 components: comps.clone(),
                 hash_keys: Some(*keys),
+                history: None,
             };
             let path = format!(
                 "{}/replays/{prop}-{}-{}-s{seed}-r{i}-{}.json",
@@ -769,10 +828,48 @@ pub fn triage<W: World>(
             // confirm in a fresh process
             let code = replay_file_quiet(&path);
             if code != 1 {
-                harness_errors.push(format!(
-                    "violation of {prop} ({}) at run {i} did not reproduce from its replay file {path} (exit {code})",
-                    f.clause
-                ));
+                // The case alone does not fail in a fresh process: the failure may need what earlier runs of the
+                // same worker left behind in the process (a memo in a thread-local or a static of the library).
+                // The worker is deterministic, so its lane is re-executed up to the failing run; the shortest
+                // suffix of the lane (1, 2, 4, ... runs before it) that still fails becomes the replay.
+                let step = res.lanes.max(1);
+                let lane_start = *i % step;
+                let before = (*i - lane_start) / step;
+                let mut found = None;
+                let mut k = 1u64;
+                loop {
+                    let kk = k.min(before);
+                    let mut rh = r.clone();
+                    rh.history = Some(History { start: *i - kk * step, step });
+                    rh.detail = format!(
+                        "[depends on state left in the process by earlier runs: the replay re-executes {} runs of the worker's lane before this one] {}",
+                        kk, f.detail
+                    );
+                    if std::fs::write(&path, serde_json::to_string_pretty(&rh).unwrap()).is_ok() && replay_file_quiet(&path) == 1 {
+                        found = Some(rh);
+                        break;
+                    }
+                    if kk == before {
+                        break;
+                    }
+                    k *= 2;
+                }
+                match found {
+                    Some(rh) => {
+                        out.push(Violation {
+                            prop: prop.to_string(),
+                            clause: rh.clause.clone(),
+                            detail: rh.detail.clone(),
+                            replay_path: path,
+                        });
+                    }
+                    None => {
+                        harness_errors.push(format!(
+                            "violation of {prop} ({}) at run {i} did not reproduce from its replay file {path} (exit {code}), nor from the history of its lane",
+                            f.clause
+                        ));
+                    }
+                }
                 continue;
             }
             out.push(Violation {
@@ -811,6 +908,7 @@ pub fn triage<W: World>(
             case: serde_json::to_value(&case).unwrap(),
             components: comps.clone(),
             hash_keys: *keys,
+            history: None,
         };
         let path = format!("{}/replays/{prop}-{}-{}-s{seed}-r{i}-{clause}.json", verif_dir(), W::NAME, b.mode);
         let _ = std::fs::create_dir_all(format!("{}/replays", verif_dir()));
